@@ -405,3 +405,18 @@ def gen_pull_ring(rng):
     rng.shuffle(order)
     return {"comps": comps, "links": links, "order": order, "end": rng.randint(4, 10),
             "ring": {"resolved": False, "mode": "pull-only"}}
+
+
+def gen_ring_pull_tail(rng):
+    """T >> P(pull-based) >> DelayFixed(d >= step of T) >> T, and a further time-stepped component that also reads P:
+    the only cycle carries enough delay, but P has a reader outside the ring"""
+    a = rng.choice([1, 2, 3])
+    d = a + rng.choice([0, 1, 2])
+    comps = [{"kind": "time", "start": 0, "steps": [a]}, {"kind": "pull", "nout": 1},
+             {"kind": "time", "start": 0, "steps": [rng.choice([1, 2, 4, 5])]}]
+    links = [{"src": 0, "out": 0, "dst": 1, "ads": []}, {"src": 1, "out": 0, "dst": 0, "ads": [["dfix", d]]},
+             {"src": 1, "out": 0, "dst": 2, "ads": [["scale"]] if rng.random() < 0.3 else []}]
+    order = [0, 1, 2]
+    rng.shuffle(order)
+    return {"comps": comps, "links": links, "order": order, "end": rng.randint(6, 14),
+            "ring": {"resolved": True, "mode": "pull-tail"}}
